@@ -701,6 +701,14 @@ def shards(tier, seed):
                                 'layout': layout, 'asymmetric': (n, cls) in ASYM})
     rnd.append({'entry': 'cnfgen-T', 'n': 3, 'clauses': ASYM[0][1], 'switches': [False, False, True],
                 'asymmetric': True})
+    # declared variables and no clause at all, variables that no clause uses
+    for entry in ('cnfshuffle', 'cnfgen-T', 'cnfshuffle-o', 'lib'):
+        for (n_, cls_) in ((3, []), (1, []), (4, [[2, -3]])):
+            for sw in ([True, True, True], [False, False, False]):
+                c_ = {'entry': entry, 'n': n_, 'clauses': cls_, 'switches': list(sw)}
+                if entry == 'cnfshuffle-o':
+                    c_['outname'] = 'out.cnf'
+                rnd.append(c_)
     if thorough:
         big = [(4, [[1, -2], [2, 3, -4], [-1], [4, 1, 2], [3]]),
                (5, [[1, 2, 3, 4, 5], [-1, 2], [-2, 3], [-3, 4], [-4, 5], [5]])]
